@@ -687,3 +687,37 @@ Proof.
   - rewrite !map_map. apply map_ext_sc with (b := scoped (length (f_params f))); auto.
     apply Forall_forall. intros. now apply K.
 Qed.
+
+(* ------------------------------------------------------------- rows at call sites ------- *)
+Definition row_stable (a : tm) : bool :=
+  match a with TNone false => false | TTup _ false => false | _ => true end.
+
+Lemma ip_spec_row_stable : forall ps a F k,
+  Forall (fun t => row_stable t = true) (fst (ip_spec ps a F k)).
+Proof.
+  induction ps as [|p ps IH]; intros [|[x|] a] F k; simpl; try constructor; auto.
+  - destruct x as [| |[|]|? [|]| | | |]; reflexivity.
+  - rewrite sp_to_bound. destruct p; reflexivity.
+Qed.
+
+Lemma consumes_insf : forall full t,
+  Forall (fun a => row_stable a = true) full ->
+  pack_returns_consumes (insf full t) = declared_outs t.
+Proof.
+  intros full t ST. unfold insf, declared_outs.
+  destruct t as [i cp dr| |[|]|ts [|]| | | |ty i]; simpl; auto.
+  - rewrite nth_error_map_Some. destruct (nth_error full i) eqn:E; simpl; auto.
+    rewrite Forall_forall in ST. specialize (ST t (nth_error_In _ _ E)).
+    destruct t as [| |[|]|? [|]| | | |]; simpl in *; auto; discriminate.
+  - now rewrite map_length.
+  - rewrite nth_error_map_Some. destruct (nth_error full i) eqn:E; simpl; auto.
+    rewrite Forall_forall in ST. specialize (ST t (nth_error_In _ _ E)).
+    destruct t as [| |[|]|? [|]| | | |]; simpl in *; auto; discriminate.
+Qed.
+
+Lemma call_row_matches : forall f a,
+  pack_returns_consumes (f_out (instantiate_partial f a)) = declared_outs (f_out f).
+Proof.
+  intros f a. unfold instantiate_partial. rewrite ip_loop_spec. simpl.
+  apply consumes_insf. apply ip_spec_row_stable.
+Qed.
